@@ -310,8 +310,9 @@ def _read(path, check):
 
 
 def observe(names, live):
-    """region -> list of handler classes (most general classes of the observed set) or None (probe not possible /
-    observations not those of an except clause).  See the module text."""
+    """region -> list of handler classes (most general classes of the observed set), None (probe not possible: the
+    AST reading is used) or False (the probes ran and the observations are not those of an except clause: unknown, no
+    fall-back).  See the module text."""
     import shutil
     import tempfile
 
@@ -377,7 +378,7 @@ def observe(names, live):
                     S.discard(n)  # taken by a region further out (no continuation): not this region's
                 elif ec is not live[n]:
                     ok = False
-            out[key] = gens(S) if ok else None
+            out[key] = gens(S) if ok else False
 
         # --- parse_input: construction (keep / map): the constructor of the `mode` input raises K; normal mode shows
         #     the class after the mapping (every layer further out hands a class through unchanged in normal mode)
@@ -407,8 +408,8 @@ def observe(names, live):
                 want = n if closed(Gk, n) else ("MalformedInputError" if closed(G, n) else n)
                 if cm[n] != want:
                     ok = False
-        out["parseInputConstructKeep"] = Gk if ok else None
-        out["parseInputConstructMap"] = G if ok else None
+        out["parseInputConstructKeep"] = Gk if ok else False
+        out["parseInputConstructMap"] = G if ok else False
         # --- parse_input: per-input handler (link_to_problem of the `mode` input raises; goes on = the material after
         #     it is read) and the reader's handler (opening the file raises; nothing is read)
         standard("parseInputInner", Mode, "link_to_problem", continued=lambda p: len(p.materials) == 1)
@@ -421,7 +422,7 @@ def observe(names, live):
         # a data block with two VOL inputs
         en, _, _ = _read(once, False)
         ec, wc, _ = _read(once, True)
-        out["cellsModifierOnce"] = ["MalformedInputError"] if (en is live["MalformedInputError"] and ec is None and "MalformedInputError" in wc) else None
+        out["cellsModifierOnce"] = ["MalformedInputError"] if (en is live["MalformedInputError"] and ec is None and "MalformedInputError" in wc) else False
         standard("cellsModifierMerge", _owner(Importance, "merge"), "merge")
         standard("cellsCellLoop", _owner(cell_t, "update_pointers"), "update_pointers")
         standard("cellsBlankModifiers", _owner(Volume, "push_to_cells"), "push_to_cells")
@@ -446,7 +447,7 @@ def observe(names, live):
         if ok:
             G = gens({n for n in probed if om[n] != n})
             ok = all(om[n] == ("MalformedInputError" if closed(G, n) else n) for n in probed)
-        out["objectInit"] = G if ok else None
+        out["objectInit"] = G if ok else False
         # --- flush_input: ReadInput(...) raises K for every input; taken = the input is yielded (the file reads as if
         #     nothing happened); a ParsingError is re-raised (Model.Errors.flushInput), anything else comes out as K
         fm, ok, G = {}, True, []
@@ -462,7 +463,7 @@ def observe(names, live):
         if ok:
             G = gens({n for n in probed if fm[n] == "yield"})
             ok = all(fm[n] == ("yield" if closed(G, n) and not sub(n, "ParsingError") else "raise") for n in probed)
-        out["flushInput"] = G if ok else None
+        out["flushInput"] = G if ok else False
     except Exception:
         if os.environ.get('C13_EXTRACT_DEBUG'):
             import traceback
@@ -505,7 +506,11 @@ def regions_with_source():
     syn = regions_ast()
     out = {}
     for r in REGIONS:
-        if obs.get(r) is not None:
+        if obs.get(r) is False:
+            # the probes ran and what came out is not what an except clause of Model.Errors does (normal mode hands
+            # another class through, a class comes out changed ...): a behaviour the AST must not paper over
+            out[r] = ([], "unknown")
+        elif obs.get(r) is not None:
             out[r] = (obs[r], "observed")
         elif syn.get(r) is not None and all(n in names for n in syn[r]):
             out[r] = (syn[r], "ast")
@@ -743,7 +748,7 @@ def generate(write):
             unknown.append("site " + k)
             sites[k] = []
         else:
-            sites[k] = lst
+            sites[k] = sorted(lst, key=names.index)  # the order of the raise statements in the file is no fact
     pairing = material_pairing()
     if pairing == "unknown":
         unknown.append("materialPairing")
